@@ -265,6 +265,14 @@ enum Out {
     ErrSpawnedAwaited(u64),
     /// Err inside a detached task (dropped silently); main future returns Ok at the same time
     ErrDetachedThenOk(u64),
+    /// main future returns Ok while tasks it spawned (one on the LocalSet, one on the
+    /// runtime) keep ticking
+    OkLeavingTasks(u64),
+}
+
+thread_local! {
+    /// (incarnations started, ticks of leftover tasks per incarnation)
+    static LEFTOVER: RefCell<(usize, Vec<u64>)> = const { RefCell::new((0, Vec::new())) };
 }
 
 impl Out {
@@ -272,7 +280,7 @@ impl Out {
     fn finish(self) -> Option<(u64, char)> {
         match self {
             Out::Absent | Out::Never | Out::PanicDetached(_) => None,
-            Out::Ok(t) | Out::ErrDetachedThenOk(t) => Some((t, 'o')),
+            Out::Ok(t) | Out::ErrDetachedThenOk(t) | Out::OkLeavingTasks(t) => Some((t, 'o')),
             Out::Err(t) | Out::ErrSpawnedAwaited(t) => Some((t, 'e')),
             Out::PanicMain(t) | Out::PanicSpawnedAwaited(t) => Some((t, 'p')),
         }
@@ -335,6 +343,28 @@ async fn outcome_program(o: Out, polls: Rc<RefCell<u64>>) -> turmoil::Result {
                     Ok(Err(e)) => Err(e.into()),
                     Err(e) => Err(e.to_string().into()),
                 }
+            }
+            Out::OkLeavingTasks(t) => {
+                let inc = LEFTOVER.with(|l| {
+                    let mut l = l.borrow_mut();
+                    l.0 += 1;
+                    l.1.push(0);
+                    l.0 - 1
+                });
+                tokio::task::spawn_local(async move {
+                    loop {
+                        tokio::time::sleep(ms(1)).await;
+                        LEFTOVER.with(|l| l.borrow_mut().1[inc] += 1);
+                    }
+                });
+                tokio::spawn(async move {
+                    loop {
+                        tokio::time::sleep(ms(1)).await;
+                        LEFTOVER.with(|l| l.borrow_mut().1[inc] += 1);
+                    }
+                });
+                tokio::time::sleep(ms(t)).await;
+                Ok(())
             }
             Out::ErrDetachedThenOk(t) => {
                 tokio::task::spawn_local(async move {
@@ -455,7 +485,8 @@ pub fn c11_scenario(ch: &mut Chooser, thorough: bool) -> Exec {
     menu_a.extend([Out::PanicMain(0), Out::PanicMain(3), Out::PanicSpawnedAwaited(1), Out::PanicDetached(3), Out::ErrSpawnedAwaited(3), Out::ErrDetachedThenOk(1)]);
     let a = *ch.of("client_a", &menu_a);
     let b = *ch.of("client_b", &[Out::Absent, Out::Ok(0), Out::Ok(5), Out::Never, Out::Ok(7)]);
-    let h = *ch.of("host", &[Out::Absent, Out::Never, Out::Err(1), Out::Err(7), Out::Ok(1), Out::PanicMain(3), Out::PanicDetached(1)]);
+    let h = *ch.of("host", &[Out::Absent, Out::Never, Out::Err(1), Out::Err(7), Out::Ok(1), Out::PanicMain(3), Out::PanicDetached(1), Out::OkLeavingTasks(1)]);
+    LEFTOVER.with(|l| *l.borrow_mut() = (0, vec![]));
     let no_clients = a == Out::Never && b == Out::Absent && ch.flag("zero_clients_instead");
     let host_fault = if h != Out::Absent { *ch.of("host_fault", &["none", "crash-before-run", "bounce-before-run"]) } else { "none" };
     let by_step = ch.flag("drive_with_step_instead_of_run");
@@ -582,6 +613,33 @@ pub fn c11_scenario(ch: &mut Chooser, thorough: bool) -> Exec {
             }
             if violation.is_none() && h_eff != Out::Absent && definitely_finished(h_eff) && vx_core::catch(|| sim.is_host_running("h")).unwrap_or(true) {
                 violation = Some(Violation::new("still-running", format!("{obs}; host h finished at {:?} but is_host_running is still true at {at}ms", h_eff.finish())));
+            }
+        }
+    }
+    // a host whose main future returned while its tasks were still alive: those tasks are
+    // not polled again, neither while the host is merely finished nor after a bounce
+    if violation.is_none() && matches!(h_eff, Out::OkLeavingTasks(_)) && !matches!(got, RunRes::Panic) {
+        let at = sim.elapsed().as_millis() as u64;
+        if h_eff.finish().map(|(t, _)| t + tick <= at).unwrap_or(false) {
+            let first = LEFTOVER.with(|l| l.borrow().1.clone());
+            let inc0 = first.len().saturating_sub(1);
+            let bounce = ch.flag("bounce_the_finished_host");
+            if bounce {
+                let _ = vx_core::catch(|| sim.bounce("h"));
+            }
+            for _ in 0..3 {
+                let _ = vx_core::catch(|| sim.step());
+            }
+            let later = LEFTOVER.with(|l| l.borrow().1.clone());
+            if later.get(inc0) != first.get(inc0) {
+                violation = Some(Violation::new(
+                    "polled-after-finish",
+                    format!(
+                        "{obs}; the tasks left behind by host h's finished incarnation ticked {} more times during 3 further steps{}",
+                        later[inc0] - first[inc0],
+                        if bounce { " after Sim::bounce (the old incarnation shares a runtime with the new one)" } else { "" }
+                    ),
+                ));
             }
         }
     }
